@@ -1,6 +1,9 @@
 """C15 hostile network input.  Wire.tla states, per class of input and connection phase, the reaction the property
 demands (node alive, no handler deadlocked, allocation <= one frame + c x bytes received, malformed closes / well-formed
-keeps); a connection is opened by the remote party (the node accepts and reads a handshake request) or by the node (it
+keeps) and, for SEQUENCES of decodable messages with arbitrary content (blocks of any height on any parent, several per height,
+repetitions, the valid blocks a remote deputy can produce, confirm packets for any of them, in any order, the manager's own queue
+timer in between, reconnects), that the protocol manager's out-of-order state (block cache, confirm cache) stays within the envelope
+of WireSeq.tla; a connection is opened by the remote party (the node accepts and reads a handshake request) or by the node (it
 dials the remote party's listener, sends its request and reads the response); TLC enumerates every class sequence within
 the bounds; each sequence is instantiated as real bytes and sent to a REAL node (real p2p handshake of either side and
 frame reader over net.Pipe feeding the real ProtocolManager, chain and stores) running in a sub-process; TraceWire.tla
@@ -18,7 +21,10 @@ MANIFEST = dict(
          "decodable-but-absurd payloads incl. absurd transactions, deputy-signed blocks, node strings and floods) up to 2 (quick) / 3 (thorough) inputs per phase "
          "on an accepted connection and 1 / 2 on a dialed one, plus a reconnect probe after every closing input; every sequence is instantiated as real bytes "
          "(seeded payloads and read splits) and replayed on a real node in a sub-process after a REAL handshake; exit status, connection state, "
-         "lock-waiters in a consistent goroutine snapshot and TotalAlloc per step are judged by TLC against the trace spec.",
+         "lock-waiters in a consistent goroutine snapshot and TotalAlloc per step are judged by TLC against the trace spec. Sequence layer: TLC's state "
+         "graph over the abstract content of the protocol manager's block / confirm cache and chain (5 blocks / 17 messages quick, 7-9 blocks / 25-40 "
+         "messages thorough: BlocksMsg with lists of descriptors <<id, height, parent, valid|junk>>, ConfirmMsg, single-message classes, the 500 ms "
+         "queue timer, reconnects); every (abstract state, message) edge is replayed on the real node, whose caches are read back after every step.",
     note="The node is assembled like main/node.New; an inbound connection is handled like p2p.Server.listenLoop/HandleConn(fd, nil)/run, an outbound one like "
          "DialManager.runDialTask/Server.HandleConn(fd, nodeID)/run to an address learnt through DiscoverManager.AddNewList, with an evil listener at the other "
          "end of a net.Pipe (Server itself needs a TCP port). Classes, not all byte strings: within a class bytes are seeded (3 seeds in thorough). Quiescence is a stop-the-world goroutine "
@@ -44,10 +50,12 @@ def nontrivial(files):
                 raise Broken("the node was still running %s after the quiescence cap without allocating much: cannot be judged (overloaded machine?): %s"
                              % (e.get("busy"), json.dumps(e)[:400]))
             c = e["a"][0] if e.get("a") else e["ev"]
+            if not isinstance(c, str):
+                c = e["ev"] + json.dumps(e["a"], separators=(",", ":"))
             beh.append(c)
             if "dead" not in e:
                 lines += 1
-            if e["ev"] == "Recv" and (e.get("read", 0) > 0 or e.get("alive") is False):
+            if e["ev"] in ("Recv", "SBlocks", "SConfirm", "Tick") and (e.get("read", 0) > 0 or e.get("alive") is False):
                 seen.add(tuple(beh))
                 if e.get("read", 0) >= 4096:
                     ratios = max(ratios, e["allocK"] * 1024.0 / e["read"])
@@ -56,12 +64,57 @@ def nontrivial(files):
     return len(seen), lines, samples, ratios
 
 
+def seq_layer(ctx, cfg, name, shards=32, limit=0):
+    """The message-sequence layer: state graph over the abstract cache contents, every edge replayed on the real node."""
+    dot = ctx.path("wire_%s.dot" % name)
+    r = ctx.tlc_exhaustive("MCWire", cfg, timeout=900, dump=dot, coverage=not ctx.quick())
+    if [a for a in r.get("zero_cov", []) if a in ("Tick", "Next", "Recv", "Connect")]:
+        raise Broken("vacuity: sequence-layer actions never taken in the design run %s: %s" % (cfg, r["zero_cov"]))
+    env = {"WIRE_LIMIT_MS": "30000"}
+    files, summ = ctx.replay("wire", graph=dot, shards=shards, maxlen=30, limit=limit, env=env, timeout=1800, name="wire." + name)
+    if summ["panics"]:
+        raise Broken("harness panicked inside the adapter (%d)" % summ["panics"])
+    ok = ctx.validate("TraceWire", "TraceWire.cfg", files, what="message sequences, %s" % name, timeout=1800)
+    # what the real node went through (vacuity guards: the sequences must really reach the manager's caches)
+    st = dict(steps=0, ticks=0, ticks_that_took_blocks_out=0, ticks_that_took_two_or_more_out=0, max_blocks_cached=0, max_confirms_cached=0, valid_blocks_accepted=0,
+              peer_dropped=0, distinct_real_states=0)
+    seen, prev = set(), None
+    for f in files:
+        for ln in open(f):
+            e = json.loads(ln)
+            if e["ev"] == "reset":
+                prev = None
+                continue
+            if "bc" not in e:
+                continue
+            st["steps"] += 1
+            st["max_blocks_cached"] = max(st["max_blocks_cached"], e["bc"])
+            st["max_confirms_cached"] = max(st["max_confirms_cached"], e["cc"])
+            st["valid_blocks_accepted"] = max(st["valid_blocks_accepted"], len(e["has"]) - 1)
+            if e["ev"] == "Tick":
+                st["ticks"] += 1
+                gone = len(set(prev["bcIds"]) - set(e["bcIds"])) if prev is not None else 0
+                st["ticks_that_took_blocks_out"] += gone >= 1
+                st["ticks_that_took_two_or_more_out"] += gone >= 2
+            if e["ev"] == "SBlocks" and e.get("closed") and prev is not None and not prev.get("closed"):
+                st["peer_dropped"] += 1
+            seen.add((tuple(e["bcIds"]), e["cc"], tuple(e["has"]), e["stable"]))
+            prev = e
+    st["distinct_real_states"] = len(seen)
+    ctx.extra.setdefault("sequence_layer", {})[name] = dict(st, graph_edges=summ["graph_edges"], graph_nodes=summ["graph_nodes"], behaviours=summ["behaviours"])
+    # (kept to what does not depend on HOW the manager evicts: a functional change of the caches is not a failure of this check)
+    if ok and not (st["max_blocks_cached"] >= 2 and st["max_confirms_cached"] >= 1 and st["valid_blocks_accepted"] >= 1 and st["ticks_that_took_blocks_out"] >= 1):
+        raise Broken("vacuity: the message sequences did not reach the protocol manager's caches as the model says: %s" % st)
+    return files, summ, ok
+
+
 def run(ctx):
     ctx.build()
     cfg = "MCWire_quick.cfg" if ctx.quick() else "MCWire_thorough.cfg"
     dot = ctx.path("wire.dot")
     r = ctx.tlc_exhaustive("MCWire", cfg, timeout=600, dump=dot, coverage=not ctx.quick())
-    if not ctx.quick() and r.get("zero_cov"):
+    # (the sequence-layer actions Tick / SBlocks / SConfirm - the latter two show as Next - are off in this configuration)
+    if not ctx.quick() and [a for a in r.get("zero_cov", []) if a not in ("Tick", "Next")]:
         raise Broken("vacuity: actions never taken in the design run: %s" % r["zero_cov"])
     # negative controls: with a deviation on (the code as it is today) TLC must find the violated clause
     negs = {}
@@ -70,6 +123,11 @@ def run(ctx):
         negs[c] = neg["inv"]
         if neg["inv"] != inv:
             raise Broken("negative control %s: expected violation of %s, got %s\n%s" % (c, inv, neg["inv"], neg["out"][-1500:]))
+    # sequence layer: with the cache-pass deviation on, TLC must reach a pass that empties two slots
+    neg = ctx.tlc("MCWire", "MCWire_seq_neg.cfg", timeout=300, expect_ok=False)
+    negs["MCWire_seq_neg.cfg"] = neg["inv"]
+    if neg["inv"] != "NodeAlive":
+        raise Broken("negative control MCWire_seq_neg.cfg: expected violation of NodeAlive, got %s\n%s" % (neg["inv"], neg["out"][-1500:]))
     ctx.extra["negative_controls"] = negs
     env = {"WIRE_LIMIT_MS": "30000"}  # only ends the wait for code that keeps running; never a verdict
     files, summ = ctx.replay("wire", graph=dot, shards=16, maxlen=12, env=env, timeout=1500)
@@ -78,6 +136,12 @@ def run(ctx):
     ok = ctx.validate("TraceWire", "TraceWire.cfg", files, what="class-sequence tree", timeout=1500)
     allfiles = list(files)
     edges = summ["graph_edges"]
+    # the message-sequence layer on top of the classes
+    for name, cfg in ([("seq", "MCWire_seq_quick.cfg")] if ctx.quick() else [("seq", "MCWire_seq_thorough.cfg"), ("seq2", "MCWire_seq_thorough2.cfg")]):
+        fq, sq, okq = seq_layer(ctx, cfg, name)
+        ok = okq and ok
+        allfiles += fq
+        edges += sq["graph_edges"]
     if not ctx.quick():
         # a second tree: fewer inputs per phase but every carrier class, heartbeats before the protocol handshake
         dot2 = ctx.path("wire2.dot")
@@ -109,6 +173,9 @@ def run(ctx):
     ctx.extra["max_alloc_bytes_per_byte_read_over_4KiB_inputs"] = round(ratio, 1)
     ctx.extra["bounds"] = dict(max_inputs_per_phase=dict(accepted=dict(PreHs=1, ProtoHs=1 if ctx.quick() else 2, Est=2 if ctx.quick() else 3),
                                                          dialed=dict(OutHs=1, ProtoHs=1 if ctx.quick() else 2, Est=1 if ctx.quick() else 2)),
+                               sequence_layer=dict(quick="5 block descriptors, 13 BlocksMsg payloads (1-2 blocks), 2 ConfirmMsg, 2 interleaved classes, Tick, reconnect",
+                                                   thorough="two graphs: 7 descriptors / 31 payloads (1-3 blocks) / 3 confirms / 2 classes; 9 descriptors (heights 0, 1, 2, 2^32-1, junk on junk, wrong height on genesis) / 20 payloads / 3 confirms with absurd height fields / 2 classes",
+                                                   tour_maxlen=30, tick_wait_ms=560),
                                reconnect_probe_after_len=3, reconnect_direction="as the first connection (tree 1) / either (tree 2, simulation)",
                                alloc_bound="25 MiB (MaxPackageLength) + 16 MiB + 256 x KiB read in the step", quiescence_cap_ms=30000)
     ctx.assumptions += [
@@ -117,4 +184,7 @@ def run(ctx):
         "a remote party that stays silent (sends nothing, keeps the connection open) is not an input class: the handshake readers have no deadline, which is not judged",
         "allocation is runtime.MemStats.TotalAlloc of the whole node process during the step (harness overhead included, frames are built before the measurement)",
         "deadlock = a goroutine of the node waiting in sync.(*Mutex|*RWMutex).Lock in a stop-the-world snapshot in which no goroutine of the node can run",
+        "sequence layer: blocks are abstracted to <<id, height, parent, valid|junk>> over a universe of 5 (quick) / 7-9 (thorough) descriptors; who signed a junk block, its timestamp (0, 1, genesis, now, 2^32-1, future) and whether it carries a transaction are seeded per block; the valid blocks are assembled for deputies 1 and 2 by a second real chain on the same genesis (a remote party does not have the node's own key)",
+        "sequence layer: a Tick step waits 560 ms (the manager's queue timer is 500 ms and free-running) and then for quiescence; the timer also fires during other steps, which the envelope of WireSeq.tla allows (it may only shrink the caches)",
+        "the protocol manager's unexported caches are read hook-free through reflect/unsafe and their own exported, locking accessors (Iterate with a callback that removes nothing, Size)",
     ]
